@@ -7,7 +7,8 @@ from d42 import schema
 from d42.declaration import DeclarationError
 
 MODULE = "D42.Props.C11"
-THEOREMS = []
+THEOREMS = ["decl_perm", "declScalar_swap", "decl_perm_after_value", "list_len_twice_rejected", "D42.GuardedUpdate.run_perm",
+            "D42.Gen.Guards.writes_guarded", "D42.Gen.Guards.conflict_symmetric", "D42.Gen.Guards.value_blocks_nothing"]
 FILES = ["D42/Model/Decl.lean", "D42/Gen/Guards.lean", "D42/Props/C11.lean"]
 
 EVIDENCE = dict(
